@@ -100,6 +100,43 @@ def patrol(chk, n):
     return bad
 
 
+def operator_patrol(chk, n):
+    """conv.convolve_operator (the matrices the scale variations are built from) against the reference:
+    op[l, k] = (P (x) p_l)(x_k) for the real splitting-function RSL objects"""
+    from yadism.esf import conv
+    from yadism.coefficient_functions import splitting_functions as split
+    labels = [(lab, fnc) for order_labels in split.raw_labels for lab, fnc in order_labels.items()]
+    bad, dist = 0, {}
+    for _ in range(n):
+        lab, fnc = chk.rng.choice(labels)
+        nf = chk.rng.choice([3, 4, 5])
+        gi = chk.rng.randrange(len(GRIDS))
+        grid, deg, lg = GRIDS[gi]
+        if len(grid) > 10:
+            grid = grid[::2] if grid[::2][-1] == 1.0 else grid[::2] + [1.0]
+            deg = min(deg, len(grid) - 1)
+        ip = interp.make_interp(grid, deg, lg)
+        basis = refconv.Basis(grid, deg, lg)
+        rsl = fnc(nf)
+        op, _err = conv.convolve_operator(rsl, ip)
+        dist[lab] = dist.get(lab, 0) + 1
+        ref = np.zeros_like(op)
+        for k, xk in enumerate(basis.grid):
+            for l in range(basis.n):
+                ref[l, k] = refconv.ref_conv(rsl, xk, basis, l)
+        sc = max(float(np.max(np.abs(ref))), 1e-30)
+        d = float(np.max(np.abs(op - ref))) / sc
+        if d > 2e-6:
+            l, k = np.unravel_index(np.argmax(np.abs(op - ref)), op.shape)
+            bad += 1
+            chk.violation("operator:%s" % lab, "conv.convolve_operator(%s, nf=%d) on grid %s (degree %d, log=%s): entry [basis %d, node %d] = %r, reference (P (x) p_l)(x_k) = %r"
+                          % (lab, nf, grid, deg, lg, l, k, float(op[l, k]), float(ref[l, k])), dict(kind="operator", label=lab, nf=nf, grid=grid, degree=deg, log=lg))
+    chk.patrol["convolve_operator_vs_reference"] = dict(cases=n, failures=bad, distribution=dist,
+                                                        rule="conv.convolve_operator on the real splitting-function RSL objects (every label of splitting_functions.raw_labels, nf 3-5, three grids): "
+                                                             "every entry [l, k] against the reference quadrature of (P (x) p_l)(x_k), rel 2e-6 — the matrices every scale-variation term is built from")
+    return bad
+
+
 def run(chk):
     chk.trusted = TRUSTED
     quick = chk.tier == "quick"
@@ -115,6 +152,7 @@ def run(chk):
                       "conv.convolution(rsl, x=%r, p_%d) on grid %s (degree %d, log=%s, reg=%s, sing=%s) does not follow the plan of the model: p(x) used = %r, quadratures = %d %s"
                       % (b["x"], b["j"], b["grid"], b["degree"], b["log"], b["has_reg"], b["has_sing"], b["result"], b["quad_calls"], b.get("problem", "")), dict(plan=b))
     patrol(chk, 12 if quick else 60)
+    operator_patrol(chk, 4 if quick else 40)
     if chk.red() and not chk.violations:
         patrol(chk, 30)
     if chk.red() and not chk.violations:
